@@ -12,6 +12,72 @@ import numpy as np
 from harness import common as C
 from harness import em_common as E
 from harness.c02 import pc_tokens, PARSEC, EM10
+from harness.c02 import SRC_SPECS as _C02_SPECS
+
+# ---- source tie (harness/translate.py -> lean/TaurexModel/Gen/SrcC20.lean, theorems in lean/Props/C20Src.lean)
+_AB = 'taurex/contributions/absorption.py'
+_KK = dict(startK='nat', endK='nat', density_offset='nat', sigma='arr2', density='arr', path='arr', weights='arr',
+           ngrid='skip', layer='nat', ngauss='nat')
+_XK = dict(startK='nat', endK='nat', density_offset='nat', sigma='arr', density='arr', path='arr', nlayers='skip',
+           ngrid='skip', layer='nat', tau='arr')
+_CM = dict(model='skip', start_layer='nat', end_layer='nat', density_offset='nat', layer='nat', density='arr',
+           tau='arr', path_length='arr')
+_KT_SPEC = dict(module='taurex/model/emission.py', cls='EmissionModel', func='evaluate_emission_ktables',
+         lean='evaluate_emission_ktables', params=dict(wngrid='elem', return_contrib='skip'), lift=['idx'],
+         lift_lens=['wngrid_size'], lens={'wg': 'ngauss'}, vec_len='ngauss',
+         consts={'PI': 's', 'PLANCK': 's', 'SPDLIGT': 's', 'KBOLTZ': 's'},
+         dialect='np', returns='s', returns_index=0, slice=True,
+         attrs={'self.deltaz': ('deltaz', 'arr'), 'self.nLayers': ('nLayers', 'nat'),
+                'self.densityProfile': ('densityProfile', 'arr'), 'self.temperatureProfile': ('temperatureProfile', 'arr'),
+                'self._mu_quads': ('mu_quads', 'elem'), 'self._wi_quads': ('wi_quads', 'elem'), 'self._clamp': ('clamp', 's'),
+                'molecule_absorption.weights': ('weights', 'arr'), 'molecule_absorption.sigma_xsec': ('sigma_k', 'arr2')},
+         # how the contribution list is split is not translated: the texts of these definitions are pinned
+         opaque_defs={'mol_type': ['AbsorptionContribution'],
+                      'non_molecule_absorption': ['[c for c in self.contribution_list if not isinstance(c, mol_type)]'],
+                      'contrib_types': ['[type(c) for c in self.contribution_list]'],
+                      'molecule_absorption': ['None', 'self.contribution_list[contrib_types.index(mol_type)]']},
+         bool_exprs={'molecule_absorption is not None': 'has_mol'},
+         objlists={'non_molecule_absorption': dict(n='nnonmol', methods={'contribute': dict(
+             lean='contribute', params=list(_CM), kinds=dict(_CM, tau='s'), inout='tau')})},
+         objects={'molecule_absorption': dict(methods={'contribute': dict(
+             lean='mol_contribute', params=list(_CM), kinds=dict(_CM, tau='s'), inout='tau')})})
+SRC_SPECS = [
+    # the kernels, one wavenumber (`wn` lifted): sigma[k, wn, g] -> sigma k g, tau[layer, wn] -> tau layer
+    dict(module=_AB, func='contribute_ktau', lean='contribute_ktau', params=dict(_KK, tau='arr'), lift=['wn'],
+         lift_lens=['ngrid'], dialect='np', result='tau', returns='arr'),
+    dict(module='taurex/model/emission.py', func='contribute_ktau_emission', lean='contribute_ktau_emission', params=_KK,
+         lift=['wn'], lift_lens=['ngrid'], dialect='np', returns='arr'),
+    dict(module='taurex/contributions/contribution.py', func='contribute_tau', lean='contribute_tau', params=_XK,
+         lift=['wn'], dialect='np', result='tau', returns='arr'),
+    # the cross-section method (`super().contribute` of the absorption contribution) and the k-table / cross-section switch
+    dict(module='taurex/contributions/contribution.py', cls='Contribution', func='contribute',
+         callname='super().contribute', lean='contribution_contribute', params=_CM,
+         attrs={'self.sigma_xsec': ('sigma_xsec', 'arr')}, dialect='np', result='tau', returns='arr'),
+    # the CIA kernel and method (a non-molecular contribution of the emission integral); same specs as C02
+    *[sp for sp in _C02_SPECS if sp['lean'] in ('contribute_cia', 'cia_contribute')],
+    # `self.sigma_xsec` has rank 3 in k-table mode (sigma_k: [layer][g] for one wavenumber) and rank 2 in cross-section
+    # mode (the `sigma_xsec` parameter of Contribution.contribute): two parameters for the one attribute
+    dict(module=_AB, cls='AbsorptionContribution', func='contribute', lean='absorption_contribute',
+         params=dict(model='skip', start_horz_layer='nat', end_horz_layer='nat', density_offset='nat', layer='nat',
+                     density='arr', tau='arr', path_length='arr'),
+         attrs={'self._use_ktables': ('use_ktables', 'bool'), 'self.sigma_xsec': ('sigma_k', 'arr2'),
+                'self.weights': ('weights', 'arr'), 'self._ngrid': ('ngrid', 'nat')},
+         lens={'self.weights': 'ngauss'}, dialect='np', result='tau', returns='arr'),
+    # transit depth from the transmittances: one wavenumber (lifted trailing axis), whole arrays along the layer axis
+    dict(module='taurex/model/transmission.py', cls='TransmissionModel', func='compute_absorption',
+         lean='compute_absorption', params=dict(tau='arr', dz='arr'), vec_len='nlayers', dialect='np', returns='s',
+         returns_index=0, slice=True, newaxis_lifted=True,
+         attrs={'self.altitudeProfile': ('altitudeProfile', 'arr'), 'self._planet.fullRadius': ('pradius', 's'),
+                'self._star.radius': ('sradius', 's')}),
+    # the Planck function (the same three specs as C02: `black_body` is called by the emission integral)
+    *[sp for sp in _C02_SPECS if sp['lean'] in ('convert_lamb', 'black_body_vec', 'black_body')],
+    # the emission integral in k-table mode: one wavenumber and one emission angle (both axes point-wise: `idx` is the
+    # angle index of the explicit loop), whole arrays along the g axis (length ngauss)
+    _KT_SPEC,
+    # components 1 and 2 of the returned tuple (`_mu`, `_w`)
+    dict(_KT_SPEC, lean='evaluate_emission_ktables_mu', returns_index=1),
+    dict(_KT_SPEC, lean='evaluate_emission_ktables_w', returns_index=2),
+]
 
 RULE = ('pickle k-tables (1-20 g-points, weights >= 0 summing to 1, 1-3 molecules sharing the weights; quota with '
         'per-molecule wavenumber grids resampled onto the model grid; reuse stream with parameter changes and '
@@ -127,6 +193,8 @@ def gen_case(rng, k, thorough=False):
                 rs=float(rng.uniform(0.3, 2.0)), dist=1.0, nlayers=nl,
                 pmin=float(10 ** rng.uniform(-3, 1)), pmax=float(10 ** rng.uniform(4, 7)), T=T, gases=gases,
                 ngauss=int(rng.integers(1, 7)), cia=[cia['pair']] if cia else [])
+    # quota: in half of the cases with CIA it is added to the model BEFORE the molecular absorption
+    spec['cia_first'] = bool(cia is not None and k % 4 < 2)
     return dict(family=family, tkind=tkind, regime=regime, tclass=tclass, spec=spec, wn=wn, tables=tables,
                 weights=w, cia=cia, multigrid=bool(ends), grid_ends=ends)
 
@@ -222,7 +290,7 @@ def judge(ctx, c, case, small, ok, ox, degenerate, kp=''):
     ctx.bucket('tables:' + ('degenerate' if degenerate else 'generic'))
     ctx.bucket('regime:' + str(c.get('regime')))
     ctx.bucket('ng:' + ('1' if ng == 1 else ('2-5' if ng <= 5 else ('6-12' if ng <= 12 else '13-20'))))
-    ctx.bucket('cia:' + str(bool(c.get('cia'))))
+    ctx.bucket('cia:' + str(bool(c.get('cia'))) + (':before-absorption' if spec.get('cia_first') else ''))
     ctx.bucket('grids:' + ('per-molecule' if c.get('multigrid') else 'shared'))
     for e_ in c.get('grid_ends') or []:
         ctx.bucket('table-grid-end:' + str(e_))
@@ -448,3 +516,15 @@ def replay(ctx, case):
         eval_case(ctx, case, scratch)
     finally:
         shutil.rmtree(scratch, ignore_errors=True)
+
+
+# assumptions of the source tie (lean/Props/C20Src.lean), recorded with the harness assumptions
+ASSUMPTIONS = ASSUMPTIONS + [
+    'source tie: `contrib.contribute(...)` / `molecule_absorption.contribute(...)` change nothing but their `tau` '
+    'argument; which method runs is Python dispatch, instantiated in the theorem (`dispatchK`, `molK`); how '
+    'evaluate_emission_ktables splits contribution_list into the AbsorptionContribution and the rest is not translated '
+    '(the text of those definitions is pinned: a change makes the source untranslatable)',
+    'source tie: `np.sum(..., axis=-1)` / `np.sum(..., axis=0)` are read as the left-to-right sum from 0 (numpy adds '
+    'pair-wise: same real number, different rounding)',
+    'source tie: `x = None` placeholders of arrays are totalised as zero arrays (never read as numbers by the code); '
+    'the emission k-path theorem needs 0 + x = x on the carrier (explicit hypothesis)']
